@@ -289,7 +289,7 @@ pub fn point(name: &str, arg: &str) {
         let mut f = t.lock().unwrap();
         let mut seq = cfg.seq.lock().unwrap();
         *seq += 1;
-        let line = json!({"seq": *seq, "pid": std::process::id(), "point": name, "arg": arg, "hit": hit});
+        let line = json!({"seq": *seq, "pid": std::process::id(), "point": name, "arg": arg, "hit": hit, "ts": monotonic_ns()});
         let _ = writeln!(f, "{}", line);
         let _ = f.flush();
     }
@@ -314,8 +314,25 @@ pub fn point(name: &str, arg: &str) {
     }
 }
 
+#[repr(C)]
+struct Timespec {
+    tv_sec: i64,
+    tv_nsec: i64,
+}
 extern "C" {
     fn _exit(code: i32) -> !;
+    fn clock_gettime(clk_id: i32, tp: *mut Timespec) -> i32;
+}
+/// CLOCK_MONOTONIC in nanoseconds: one clock for all processes of the machine.
+fn monotonic_ns() -> u64 {
+    let mut ts = Timespec {
+        tv_sec: 0,
+        tv_nsec: 0,
+    };
+    unsafe {
+        clock_gettime(1, &mut ts);
+    }
+    (ts.tv_sec as u64) * 1_000_000_000 + ts.tv_nsec as u64
 }
 unsafe fn libc_exit(code: i32) -> ! {
     _exit(code)
